@@ -240,7 +240,8 @@ CHECKS["C16"] = dict(
 
 CHECKS["C18"] = dict(
     pkg="c18", level="exploration",
-    props=[dict(name="TestPropServer", quick=160000, thorough=16 * 1500000, shards_quick=8, shards_thorough=16, timeout_thorough=7200)],
+    props=[dict(name="TestPropServer", quick=160000, thorough=16 * 1500000, shards_quick=8, shards_thorough=16, timeout_thorough=7200),
+           dict(name="TestPropListen", quick=24000, thorough=16 * 250000, shards_quick=8, shards_thorough=16, timeout_thorough=7200)],
     fuzz=[dict(name="FuzzServer", seconds=300)],
     rule="register maps (dense from 0, dense at the top of the address space, sparse runs, dense with one gap, bottom+top; "
          "all-ones / address-derived / salted contents; validators never/even/<1000/always on drawn registers) x 1-12 requests "
@@ -251,11 +252,22 @@ CHECKS["C18"] = dict(
          "acceptable outcomes (normal response byte for byte, or the exception codes whose conditions hold, or no response "
          "only when the data is shorter than the fixed header); no panic; the register file afterwards equals the model "
          "(after a refused read or single write: unchanged; after a refused multi-write only addressed registers may "
-         "differ). Non-trivial = quantity at a protocol limit, or a multi-element request that runs into an absent address.",
+         "differ). Non-trivial = quantity at a protocol limit, or a multi-element request that runs into an absent address. "
+         "TestPropListen (frame level): the same maps x unit id 1-247 x RTU or TCP framing x 1-8 frames through Server.Listen on a "
+         "packet pipe: requests as above framed by the harness (own CRC-16 / MBAP code), the largest legal writes (FC16 with "
+         "119-123 registers, FC15 with 1930-1968 coils: ADUs up to the 256/260-byte maximum), frames for another unit, RTU frames "
+         "with one bit flipped, RTU frames of 2-3 bytes with a right check sum (FF FF), TCP frames shorter than a header, short "
+         "noise. Oracle (differential): Listen writes exactly the framing of what a direct ProcessRequest on an equal register "
+         "file returns (transaction id echoed), nothing for a frame that is not a request for its unit, a probe request after "
+         "every frame is answered (no panic, no hang, no surplus packet), and both register files stay equal. Non-trivial there = "
+         "a frame that is not a plain request, or one of 250 bytes or more.",
     assumptions=["where two exception conditions hold at once either code is accepted",
                  "an inconsistent byte-count field in FC15/16 may be answered with 03 or processed",
                  "FC15 onto a register with a validator: either outcome (the validator sees intermediate values)",
-                 "requests with surplus bytes may be refused with 03 or processed on their defined prefix"],
+                 "requests with surplus bytes may be refused with 03 or processed on their defined prefix",
+                 "frame level: a TCP ADU of exactly 8 bytes (function code without data) and MBAP headers with a wrong protocol id or "
+                 "length field are not generated: what is due for them is not settled by the statement; unit id 0 (broadcast) is not generated",
+                 "frame level: no reply within 120 s to a pending well-formed request counts as a hang (the work is in-memory, microseconds)"],
     level_text="Generated register maps and requests (rapid) plus a coverage-guided native fuzz target, differential against a "
                "reference implementation of the specification's request state diagrams.",
     level_note="Trusted: the reference server in harness/c18 (written from the specification, independent of modbus/pdu.go).",
